@@ -82,7 +82,7 @@ RefResult == RefGroupby(agg.name, vals, codes, Expected, agg.userFill, RefMinCou
 
 \* C02 / C04: the finished pipeline equals the reference on every slot
 InvResult ==
-  phase = "done" =>
+  (phase = "done" /\ agg.lawful) =>
     /\ result.groups = Expected
     /\ \A k \in 1..NLabels : Matches(RefResult[k], result.result[k]) \/ IsUnspec(result.result[k])
 
